@@ -1,0 +1,17 @@
+//go:build verif
+
+package client
+
+// Introspection for the verification harness (/verif). Compiled only with -tags verif.
+
+// VerifTokenTableBarrier holds the write lock of the token-handler table: it calls enter
+// while holding it and keeps it until release is closed. The table is left as it was
+// (the entry of key, present or not, is untouched). Callers of Do that arrive meanwhile
+// queue up on the table's lock and are let through together.
+func (cc *Conn) VerifTokenTableBarrier(key uint64, enter func(), release <-chan struct{}) {
+	cc.tokenHandlerContainer.ReplaceWithFunc(key, func(old HandlerFunc, ok bool) (HandlerFunc, bool) {
+		enter()
+		<-release
+		return old, !ok
+	})
+}
